@@ -203,6 +203,25 @@ example : planRows (run witnessOps) qGt0 = [[.int 1], [.int 2]] := by decide
 example : planRows (run (witnessOps ++ [.removeProp 1 kx, .setProp 1 kx (.int 9)])) qGt0
     = [[.int 2], [.int 1]] := by decide
 
+/-- The two zeros and the integer 0 are three distinct index keys (in this order) and one
+query value; NaN is a key equal to nothing, itself included.  The invariant and soundness
+theorems above cover histories that rewrite a key with such a value. -/
+theorem C02_equal_values_distinct_keys :
+    idxLt (.int 0) .nzero = true ∧ idxLt .nzero (.flt 0) = true
+    ∧ cmpCy .eq .nzero (.flt 0) = true ∧ cmpCy .eq (.flt 0) .nzero = true ∧ cmpCy .eq .nzero (.int 0) = true
+    ∧ cmpCy .eq .nan .nan = false ∧ cmpCy .ge .nan (.int 0) = false := by decide
+
+/-- `0.0 → -0.0 → 7` on an indexed key, then delete and reuse of the id under another label:
+the repaired model files the node under exactly its current value at every step. -/
+example :
+    let ops : List Op := [.createIndex lP kx, .create 1 [lP], .setProp 1 hKey (.int 1),
+      .setProp 1 kx (.flt 0), .setProp 1 kx .nzero, .setProp 1 kx .nzero, .setProp 1 kx (.int 7)]
+    planRows (run ops) { label := lP, preds := [.cmp kx .ge (.int 0)], ret := .prop hKey } = [[.int 1]]
+    ∧ planRows (run (ops ++ [.delete 1, .create 1 [3], .setProp 1 kx (.flt 0)]))
+        { label := lP, preds := [.cmp kx .eq (.int 0)], ret := .count } = [[.int 0]]
+    ∧ (run (ops.take 5)).ixs.map (fun ix => ix.tree) = [[(.nzero, [1])]] := by
+  decide
+
 /-- The invariant is satisfied by a non-trivial state (three nodes of three value kinds, one
 index with three keys). -/
 example : Inv (run witnessOps) ∧ ((run witnessOps).ixs.map (fun ix => ix.tree.length)) = [3] :=
